@@ -4,6 +4,7 @@
 package rw
 
 import (
+	"context"
 	"fmt"
 	"sync"
 	"sync/atomic"
@@ -35,6 +36,8 @@ func Run() []string {
 	selectSendAndNil(l)
 	deferClose(l)
 	terminatingSelect(l)
+	condAndTypedAtomics(l)
+	contexts(l)
 	return l.lines
 }
 
@@ -320,4 +323,62 @@ func pick(a chan int, b chan struct{}) int {
 	case <-b:
 		return -1
 	}
+}
+
+func condAndTypedAtomics(l *log) {
+	var mu sync.Mutex
+	cond := sync.NewCond(&mu)
+	var ready atomic.Bool
+	var n atomic.Int32
+	var total atomic.Uint64
+	var p atomic.Pointer[string]
+	var wg sync.WaitGroup
+	for i := 0; i < 3; i++ {
+		wg.Add(1)
+		go func(i int) {
+			defer wg.Done()
+			mu.Lock()
+			for !ready.Load() {
+				cond.Wait()
+			}
+			mu.Unlock()
+			n.Add(1)
+			total.Add(uint64(i + 1))
+		}(i)
+	}
+	time.Sleep(time.Millisecond)
+	s := "published"
+	p.Store(&s)
+	mu.Lock()
+	ready.Store(true)
+	cond.Broadcast()
+	mu.Unlock()
+	wg.Wait()
+	l.add("cond: n=%d total=%d ptr=%s swapped=%v", n.Load(), total.Load(), *p.Load(), n.CompareAndSwap(3, 30))
+}
+
+func contexts(l *log) {
+	ctx, cancel := context.WithTimeout(context.Background(), 5*time.Millisecond)
+	defer cancel()
+	select {
+	case <-ctx.Done():
+		l.add("ctx: timeout fired: %v", ctx.Err())
+	case <-time.After(time.Second):
+		l.add("ctx: timeout lost")
+	}
+	parent, pcancel := context.WithCancel(context.Background())
+	child, ccancel := context.WithTimeout(parent, time.Hour)
+	defer ccancel()
+	go func() {
+		time.Sleep(time.Millisecond)
+		pcancel()
+	}()
+	<-child.Done()
+	l.add("ctx: child cancelled by parent: %v", child.Err())
+	_, has := child.Deadline()
+	l.add("ctx: child has deadline: %v", has)
+	tick := time.Tick(time.Millisecond)
+	<-tick
+	<-tick
+	l.add("ctx: two ticks")
 }
